@@ -40,6 +40,9 @@ from stone.backends.python_rsrc import stone_base as bb, stone_validators as bv,
 def unjson(v):
     if isinstance(v, dict) and '__bytes__' in v:
         return base64.b64decode(v['__bytes__'])
+    if isinstance(v, dict) and '__timestamp__' in v:
+        import datetime
+        return datetime.datetime.strptime(*v['__timestamp__'])
     return v
 
 
